@@ -23,7 +23,7 @@ CLAIMS = {
  'C15': dict(text='Containment, content and placement: parse_docs renders a doc block that is exactly one comment for every doc text (no `*/` can end it early) and is exactly the rendering of every doc attribute in order, the text itself with only backslashes inserted (lemma); FieldAttr::merge drops docs of flattened fields; from_attrs takes docs only from doc attributes; generate_decl places the block immediately before `export`; the emitted field entry is docs + name + type, i.e. a field doc sits immediately before its property.',
              note='Not decided: variant docs (not emitted). Known finding D7 for merged files with blank lines inside doc blocks. The wrapper templates of named() with repetitions are decided by a registered bounded stand-in (op:variant_literals), not by proof.'),
  'C16': dict(text='Panic-freedom of the hand-written kernels (no slice/unwrap/expect/unreachable can fire in the rename functions, absolute, diff_paths, import_path, tagged, from_variant) and the rejection tables: every documented incompatible attribute combination makes assert_validity return Err, and assert_validity Ok implies tagged() Ok so that the expect in from_variant cannot fire; the dispatchers type_def and enum_def (head) return that error before any formatter runs; the entry points return every error of parsing / struct_def / enum_def and turn it into compile_error! tokens (unit entry). All values, no bound.',
-             note='Not decided by proof: that the expansion compiles (bounded stand-in: a compile probe of 14 generic items and a 701-cell shape x attribute grid), unknown-key errors of the syn parsers (bounded stand-in: 30 items through the real entry point); the compile-time IsOption check. Context assumptions: enum_def validates before formatting variants; import_path is called with a file path that has a parent.'),
+             note='Not decided by proof: that the expansion compiles (bounded stand-in: a compile probe of 20 hand-written items and a 1182-cell shape x attribute x generics grid), unknown-key errors of the syn parsers (bounded stand-in: 30 items through the real entry point); the compile-time IsOption check. Context assumptions: enum_def validates before formatting variants; import_path is called with a file path that has a parent.'),
  'C17': dict(text='Error-not-panic for path failures: absolute/diff_paths/import_path return Err(CannotBeExported) exactly when the target climbs above the root (Io errors apart) and never panic; export_into returns CannotBeExported for non-exportable types before any fs call; export_and_merge leaves the registry unchanged on every failing fs call (all fault positions at once) and touches no other file; export_recursive / export_all_into return an error for a root that cannot be exported.',
              note='Not decided: "repeating the export produces the same directory contents" and "leaves every other file untouched" (file-system frame). Trusted: fs functions may fail at any call; std::path contracts.'),
 }
